@@ -452,7 +452,8 @@ func runPoolScenario(sc *pScenario) pObs {
 	obs := pObs{ID: sc.ID, Events: []pEvent{}, Reqs: []pReqObs{}, Ops: []pOpObs{}, Snaps: []pSnap{}, Stuck: []int64{}}
 	var asyncOps sync.WaitGroup
 	pr := &probe{holds: map[string]chan struct{}{}, reached: map[string]chan struct{}{}, closed: map[string]bool{}, actions: map[string]func(){}}
-	apis := map[string]interface{}{"P": pr}
+	// "Tn": a second api every instance is built with; some requests inject their own object under the same name (C06)
+	apis := map[string]interface{}{"P": pr, "Tn": &struct{ Note string }{"pool api"}}
 	gp, err := engine.NewGenginePool(sc.Min, sc.Max, sc.Model, pRulesText(sc.Rules), apis)
 	if err != nil {
 		obs.NewErr = err.Error()
